@@ -12,6 +12,8 @@ import (
 	"sync"
 
 	"github.com/cossacklabs/acra/pseudonymization/common"
+
+	"verif/ev"
 )
 
 var maintOps = []string{"tv", "tw", "rv", "dv", "dw", "disall", "disv", "en", "rmall", "rmdis", "rot"}
@@ -117,6 +119,15 @@ func runMaint(cfg maintCfg) (out maintOut) {
 	if cfg.Granularity0 {
 		x.top.SetAccessTimeGranularity(0)
 	}
+	// histories with acra-tokens commands (cli.go): the harness's own reads leave access times alone,
+	// and every history ends with the owner's probes (executed after the state was taken)
+	cli := cfg.Phase == "cli"
+	x.quiet = cli
+	allOps := cfg.Ops
+	if cli {
+		allOps = append(append([]string{}, cfg.Ops...), cliProbes...)
+	}
+	lastCLI, cause, diverged := "", "", false
 	x.plain = []tval{vals[0], vals[1]}
 	m := &model{cur: [2]int{-1, -1}, latest: [2]int{-1, -1}}
 	add := func(key, msg string) { out.Findings = append(out.Findings, finding{key, msg}) }
@@ -132,8 +143,46 @@ func runMaint(cfg maintCfg) (out maintOut) {
 	}
 	var prevOps []string
 	rotated := false
-	for _, op := range cfg.Ops {
+	okReal := -1
+	for oi, op := range allOps {
+		if oi == len(cfg.Ops) {
+			okReal = okOps // what follows are the owner's probes
+		}
+		if diverged && oi < len(cfg.Ops) {
+			continue // the store left the model at a command (reported there): go to the owner's probes
+		}
 		hist := strings.Join(append(append([]string{}, prevOps...), op), ",")
+		// kp: key prefix of the findings of this step; opKey: the operation as named in keys
+		kp, opKey := "C10/maintenance/"+cfg.Type, op
+		if oi >= len(cfg.Ops) {
+			hist = strings.Join(cfg.Ops, ",") + " the owner's probe " + op
+			// what the owner sees after the commands: keyed by the command that left the model (and why
+			// the record it touched had to be left alone), else by the class of the last command
+			switch {
+			case cause != "":
+				kp = cause + "/then-owner/" + cfg.Type
+			case lastCLI != "":
+				kp = "C10/cli-maintenance/after:" + lastCLI + "/" + cfg.Type
+			}
+		}
+		switch {
+		case op == "age":
+			err := x.age()
+			out.Obs = append(out.Obs, fmt.Sprintf("age=%v", err))
+			if err != nil {
+				ev.Fatalf("ageing the records: %v", err)
+			}
+			okOps++
+		case strings.HasPrefix(op, "cli:"):
+			c := parseCLIOp(op)
+			lastCLI, opKey = c.class(), "cli:"+c.class()
+			o, d, why := applyCLI(x, m, vals, op, hist, add)
+			out.Obs = append(out.Obs, c.class()+"="+o)
+			diverged, cause = d, why
+			if !d {
+				okOps++
+			}
+		}
 		switch op {
 		case "tv", "tw", "rv":
 			vi := 0
@@ -148,20 +197,20 @@ func runMaint(cfg maintCfg) (out maintOut) {
 			r := x.tokenize(entry, consistent, 0, vals[vi])
 			out.Obs = append(out.Obs, op+"="+obsLabel(r, m))
 			if r.Panic != "" {
-				add("C10/maintenance/"+cfg.Type+"/tokenize/panic:"+panicSite(r.Stack), "tokenize panicked after "+hist+": "+r.Panic)
+				add(kp+"/tokenize/panic:"+panicSite(r.Stack), "tokenize panicked after "+hist+": "+r.Panic)
 				break
 			}
 			if r.Note != "" {
-				add("C10/maintenance/"+cfg.Type+"/tokenize/malformed-token", r.Note)
+				add(kp+"/tokenize/malformed-token", r.Note)
 				break
 			}
 			hasCur := consistent && m.cur[vi] >= 0
 			switch {
 			case hasCur && !m.hDisabled[vi]:
 				if r.Err != nil {
-					add("C10/maintenance/"+cfg.Type+"/tokenize-known-value/error", fmt.Sprintf("after %s: tokenize of a value with an enabled consistent record failed: %v", hist, r.Err))
+					add(kp+"/tokenize-known-value/error", fmt.Sprintf("after %s: tokenize of a value with an enabled consistent record failed: %v", hist, r.Err))
 				} else if !r.Val.equal(m.toks[m.cur[vi]].tok) {
-					add("C10/maintenance/"+cfg.Type+"/tokenize-known-value/token-changed", fmt.Sprintf("after %s: consistent token changed from %s to %s", hist, m.toks[m.cur[vi]].tok, r.Val))
+					add(kp+"/tokenize-known-value/token-changed", fmt.Sprintf("after %s: consistent token changed from %s to %s", hist, m.toks[m.cur[vi]].tok, r.Val))
 				} else {
 					okOps++
 					m.latest[vi] = m.cur[vi]
@@ -171,21 +220,21 @@ func runMaint(cfg maintCfg) (out maintOut) {
 				// the two answers that keep "the same value always maps to the same token" true
 				// across a later enable.
 				if r.Err == nil && !r.Val.equal(m.toks[m.cur[vi]].tok) {
-					add("C10/maintenance/"+cfg.Type+"/tokenize-while-consistent-record-disabled/new-token",
+					add(kp+"/tokenize-while-consistent-record-disabled/new-token",
 						fmt.Sprintf("after %s: consistent tokenize handed out %s although the (disabled) consistent record names %s", hist, r.Val, m.toks[m.cur[vi]].tok))
 				} else if r.Err == nil {
 					okOps++
 				}
 			default:
 				if r.Err != nil {
-					add("C10/maintenance/"+cfg.Type+"/tokenize-new-value/error", fmt.Sprintf("after %s: tokenize failed on fresh draws: %v", hist, r.Err))
+					add(kp+"/tokenize-new-value/error", fmt.Sprintf("after %s: tokenize failed on fresh draws: %v", hist, r.Err))
 					break
 				}
 				if p := shapeProblem(vals[vi], r.Val); p != "" {
-					add("C10/maintenance/"+cfg.Type+"/"+p, fmt.Sprintf("after %s: token %s for value %s", hist, r.Val, vals[vi]))
+					add(kp+"/"+p, fmt.Sprintf("after %s: token %s for value %s", hist, r.Val, vals[vi]))
 				}
 				if inUseByOther(r.Val, vi) {
-					add("C10/maintenance/"+cfg.Type+"/two-values-one-token", fmt.Sprintf("after %s: token %s is already in use for the other value", hist, r.Val))
+					add(kp+"/two-values-one-token", fmt.Sprintf("after %s: token %s is already in use for the other value", hist, r.Val))
 				}
 				okOps++
 				m.toks = append(m.toks, mTok{vi, stEnabled, r.Val})
@@ -233,15 +282,15 @@ func runMaint(cfg maintCfg) (out maintOut) {
 			out.Obs = append(out.Obs, op+"("+what+")="+obsLabel(r, m))
 			switch {
 			case r.Panic != "":
-				add("C10/maintenance/"+cfg.Type+"/detokenize-"+what+"/panic:"+panicSite(r.Stack), "detokenize panicked after "+hist)
+				add(kp+"/detokenize-"+what+"/panic:"+panicSite(r.Stack), "detokenize panicked after "+hist)
 			case r.Err != nil:
 				if !errOK {
-					add("C10/maintenance/"+cfg.Type+"/detokenize-"+what+"/error", fmt.Sprintf("after %s: detokenize(%s) failed: %v", hist, t, r.Err))
+					add(kp+"/detokenize-"+what+"/error", fmt.Sprintf("after %s: detokenize(%s) failed: %v", hist, t, r.Err))
 				}
 			case forbid != nil && r.Val.equal(*forbid) && !t.equal(*forbid):
-				add("C10/maintenance/"+cfg.Type+"/detokenize-disabled/value-revealed", fmt.Sprintf("after %s: disabled token %s was detokenized to %s", hist, t, r.Val))
+				add(kp+"/detokenize-disabled/value-revealed", fmt.Sprintf("after %s: disabled token %s was detokenized to %s", hist, t, r.Val))
 			case r.Note != "" || !r.Val.equal(want):
-				add("C10/maintenance/"+cfg.Type+"/detokenize-"+what+"/wrong-answer", fmt.Sprintf("after %s: detokenize(%s token %s) = %s %s, want %s", hist, what, t, r.Val, r.Note, want))
+				add(kp+"/detokenize-"+what+"/wrong-answer", fmt.Sprintf("after %s: detokenize(%s token %s) = %s %s, want %s", hist, what, t, r.Val, r.Note, want))
 			default:
 				okOps++
 			}
@@ -254,7 +303,7 @@ func runMaint(cfg maintCfg) (out maintOut) {
 			_, _, err := x.visit(action, sel)
 			out.Obs = append(out.Obs, fmt.Sprintf("%s=%v", op, err))
 			if err != nil {
-				add("C10/maintenance/"+cfg.Type+"/"+action+"/error", fmt.Sprintf("after %s: VisitMetadata failed: %v", hist, err))
+				add(kp+"/"+action+"/error", fmt.Sprintf("after %s: VisitMetadata failed: %v", hist, err))
 				break
 			}
 			okOps++
@@ -292,9 +341,21 @@ func runMaint(cfg maintCfg) (out maintOut) {
 			out.Obs = append(out.Obs, "rot")
 			okOps++
 		default:
-			panic("unknown op " + op)
+			if op != "age" && !strings.HasPrefix(op, "cli:") {
+				panic("unknown op " + op)
+			}
 		}
 		prevOps = append(prevOps, op)
+		if diverged {
+			// (the records were compared one by one at the command; the model now follows the options)
+			if oi < len(cfg.Ops) {
+				out.State = "diverged"
+			}
+			continue
+		}
+		if oi >= len(cfg.Ops) {
+			continue // a probe: its answer is the observation; the state of the history was taken before
+		}
 
 		// ---- store contents against the model after every step
 		var known []tval
@@ -303,18 +364,18 @@ func runMaint(cfg maintCfg) (out maintOut) {
 		}
 		sv, problems := x.view(known)
 		for _, p := range problems {
-			add("C10/maintenance/"+cfg.Type+"/store-content/"+strings.SplitN(p, ":", 2)[0], "after "+hist+": "+p)
+			add(kp+"/store-content/"+strings.SplitN(p, ":", 2)[0], "after "+hist+": "+p)
 		}
 		if len(problems) == 0 {
 			for vi := 0; vi < 2; vi++ {
 				h, ok := sv.H[vkey(0, vals[vi])]
 				switch {
 				case m.cur[vi] < 0 && ok:
-					add("C10/maintenance/"+cfg.Type+"/store-content/consistent-record-survived-"+op, "after "+hist+": consistent record still stored")
+					add(kp+"/store-content/consistent-record-survived-"+opKey, "after "+hist+": consistent record still stored")
 				case m.cur[vi] >= 0 && !ok:
-					add("C10/maintenance/"+cfg.Type+"/store-content/consistent-record-lost-on-"+op, "after "+hist+": consistent record missing")
+					add(kp+"/store-content/consistent-record-lost-on-"+opKey, "after "+hist+": consistent record missing")
 				case m.cur[vi] >= 0 && (h.Disabled != m.hDisabled[vi] || !h.Tok.equal(m.toks[m.cur[vi]].tok)):
-					add("C10/maintenance/"+cfg.Type+"/store-content/consistent-record-differs-after-"+op,
+					add(kp+"/store-content/consistent-record-differs-after-"+opKey,
 						fmt.Sprintf("after %s: consistent record is (%s, disabled=%v), want (%s, disabled=%v)", hist, h.Tok, h.Disabled, m.toks[m.cur[vi]].tok, m.hDisabled[vi]))
 				}
 			}
@@ -329,16 +390,19 @@ func runMaint(cfg maintCfg) (out maintOut) {
 				t, ok := sv.T[key]
 				switch {
 				case k.status == stRemoved && ok:
-					add("C10/maintenance/"+cfg.Type+"/store-content/token-record-survived-"+op, "after "+hist+": removed token record still stored")
+					add(kp+"/store-content/token-record-survived-"+opKey, "after "+hist+": removed token record still stored")
 				case k.status != stRemoved && !ok:
-					add("C10/maintenance/"+cfg.Type+"/store-content/token-record-lost-on-"+op, "after "+hist+": token record missing")
+					add(kp+"/store-content/token-record-lost-on-"+opKey, "after "+hist+": token record missing")
 				case k.status != stRemoved && (t.Disabled != (k.status == stDisabled) || !t.Val.equal(vals[k.val])):
-					add("C10/maintenance/"+cfg.Type+"/store-content/token-record-differs-after-"+op,
+					add(kp+"/store-content/token-record-differs-after-"+opKey,
 						fmt.Sprintf("after %s: token record %s is (%s, disabled=%v), want (%s, disabled=%v)", hist, key, t.Val, t.Disabled, vals[k.val], k.status == stDisabled))
 				}
 			}
 		}
 		out.State = modelState(m) + " | " + strings.Join(sv.Orph, " ")
+		if cli {
+			out.State += " | " + cliStateSuffix(x, m, vals)
+		}
 		if rotated {
 			// (what follows a rotation is explored again: the stored records are now under an older key)
 			out.State += " | rotated"
@@ -357,6 +421,9 @@ func runMaint(cfg maintCfg) (out maintOut) {
 	}
 	out.Steps = x.steps
 	out.Outcome = fmt.Sprintf("ok%d/%d", okOps, len(cfg.Ops))
+	if okReal >= 0 {
+		out.Outcome = fmt.Sprintf("ok%d/%d,probes-ok%d/%d", okReal, len(cfg.Ops), okOps-okReal, len(cliProbes))
+	}
 	return
 }
 
